@@ -134,7 +134,9 @@ int yyparse(void);
         short context; 
         short save_current_type; 
         short save_exact_types;
-    } func_block; /* 8 */
+        int locals_off;   /* locals_ptr - locals when the literal started */
+        int type_off;     /* type_of_locals_ptr - type_of_locals when the literal started */
+    } func_block; /* 16 */
 }
 
 /*
@@ -2418,6 +2420,8 @@ expr4:
                 $<func_block>$.save_exact_types = (short)exact_types;
                 if (type_of_locals_ptr + max_num_locals + num_local_variables_allowed >= &type_of_locals[type_of_locals_size])
                     reallocate_locals();
+                $<func_block>$.locals_off = (int)(locals_ptr - locals);
+                $<func_block>$.type_off = (int)(type_of_locals_ptr - type_of_locals);
                 deactivate_current_locals();
                 locals_ptr += current_number_of_locals;
                 type_of_locals_ptr += max_num_locals;
@@ -2459,6 +2463,13 @@ expr4:
                 if (current_function_context->bindable)
                     $$->v.number |= 0x10000;
                 free_all_local_names();
+                /* a literal inside this one that error recovery abandoned never restored the pointers:
+                 * release what it left in the table and return to where this literal started */
+                while (locals_ptr > locals + $<func_block>2.locals_off + $<func_block>2.num_local) {
+                    --locals_ptr;
+                    (*locals_ptr)->sem_value--;
+                    (*locals_ptr)->dn.local_num = -1;
+                }
                 
                 current_number_of_locals = $<func_block>2.num_local;
                 max_num_locals = $<func_block>2.max_num_locals;
@@ -2467,9 +2478,9 @@ expr4:
                 exact_types = $<func_block>2.save_exact_types;
                 pop_function_context();
                 
-                locals_ptr -= current_number_of_locals;
-                type_of_locals_ptr -= max_num_locals;
-                runtime_locals_ptr -= current_number_of_locals;
+                locals_ptr = locals + $<func_block>2.locals_off;
+                type_of_locals_ptr = type_of_locals + $<func_block>2.type_off;
+                runtime_locals_ptr = runtime_locals + $<func_block>2.locals_off;
 #ifdef NEOLITH_VERIF
                 VERIF_CTRACE ("literal.leave.saved", current_number_of_locals, max_num_locals);
                 VERIF_CTRACE ("literal.leave.type", type_of_locals_ptr - type_of_locals, type_of_locals_size);
